@@ -31,3 +31,21 @@ namespace rkcommon {
     template LinearSpace3<vec_t<float, 3, true>> frame(const vec_t<float, 3, true> &);
   }  // namespace math
 }  // namespace rkcommon
+
+// self-check of R-C06-pure (expected count on the library is zero): `cached` must be reported, `table` must not
+namespace rkverif_c06 {
+  inline float cached_sine(float r)
+  {
+    static float last_r = 0.f, last_s = 0.f;   // mutable function-local static: shared between threads
+    if (r != last_r) {
+      last_r = r;
+      last_s = r - r * r * r / 6.f;
+    }
+    return last_s;
+  }
+  inline float table_lookup(int i)
+  {
+    static const float table[4] = {0.f, 1.f, 0.f, -1.f};
+    return table[i & 3];
+  }
+}  // namespace rkverif_c06
